@@ -36,34 +36,3 @@ async fn f_c08_a_shutdown_emits_fin() {
     while let Some(f) = c.decode(&mut buf).unwrap() { if f.cmd == anytls_rs::protocol::Command::Fin && f.stream_id == id { fin = true; } }
     assert!(fin, "the stream was shut down but no FIN frame for stream {} reached the wire: the peer never sees end of stream", id);
 }
-
-/// F-C14-a  session_heartbeat.vx_block_heartbeat_tick.a_peer_that_answered_the_previous_request_in_time_is_never_declared_dead
-/// interval 400 ms, timeout 100 ms (a pair the command line accepts); the peer answers every keep-alive request at once
-/// (an in-memory pipe), yet the monitor closes the session at its second tick: now - last_answer ~ interval > timeout
-async fn healthy_pair(interval_ms: u64, timeout_ms: u64) -> (Arc<Session>, Arc<Session>) {
-    use anytls_rs::session::SessionHeartbeatConfig;
-    let (a, b) = tokio::io::duplex(1 << 20);
-    let (ar, aw) = tokio::io::split(a);
-    let (br, bw) = tokio::io::split(b);
-    let client = Arc::new(Session::new_client(ar, aw, pf(), Some(SessionHeartbeatConfig { interval: Duration::from_millis(interval_ms), timeout: Duration::from_millis(timeout_ms) })));
-    let server = Arc::new(Session::new_server(br, bw, pf()));
-    let s2 = server.clone();
-    tokio::spawn(async move { let _ = s2.recv_loop().await; });
-    let s3 = server.clone();
-    tokio::spawn(async move { let _ = s3.process_stream_data().await; });
-    client.clone().start_client().await.unwrap();
-    client.disable_buffering();   // as create_proxy_stream does right after opening the first stream
-    (client, server)
-}
-
-#[tokio::test]
-async fn f_c14_a_healthy_session_survives_when_timeout_is_shorter_than_interval() {
-    // control: the same peer with timeout > interval stays up, so the peer of this harness does answer in time
-    let (c0, s0) = healthy_pair(100, 400).await;
-    tokio::time::sleep(Duration::from_millis(1200)).await;
-    assert!(!c0.is_closed() && !s0.is_closed(), "control failed: the replay is inconclusive");
-    // the witness: interval 400 ms, timeout 100 ms
-    let (client, _server) = healthy_pair(400, 100).await;
-    tokio::time::sleep(Duration::from_millis(1500)).await;
-    assert!(!client.is_closed(), "the peer answered every keep-alive request immediately, yet the liveness monitor closed the session (interval 400 ms > timeout 100 ms)");
-}
